@@ -95,6 +95,11 @@ func stimulus(name string, r *rand.Rand) []byte {
 			d[i] = byte('a' + i%26)
 		}
 		return wire.Notification(6, 2, d)
+	case "notif-max":
+		// a NOTIFICATION that fills the largest message the header allows (4096 octets)
+		return wire.Notification(6, 2, make([]byte, 4075))
+	case "update-max":
+		return wire.Update(make([]byte, 4077))
 	case "notif-shutdown-short":
 		// a length octet that promises more than is there
 		return wire.Notification(6, 4, []byte{200, 'x', 'y'})
@@ -151,7 +156,18 @@ func scenStateMsg(e *Env, args []string, r *rand.Rand) {
 	c := p.bring(dir, state, 90, remoteID)
 	if c != nil && m["second"] == "1" {
 		p.mark = e.tr.len()
-		c.send(wire.Notification(6, 4, nil))
+		switch m["prelude"] {
+		case "cease-trail":
+			// the Cease that ends the first connection has further octets behind it in the same write
+			c.send(append(wire.Notification(6, 4, nil), 0xff, 0xff, 0xff, 0x01, 0x02))
+		case "cut":
+			// the first connection ends in the middle of a message
+			b := wire.Update([]byte{1, 2, 3, 4, 5, 6, 7, 8, 9})
+			c.send(b[:24])
+			c.fin()
+		default:
+			c.send(wire.Notification(6, 4, nil))
+		}
 		c.waitEnd(stepWait)
 		c = p.bring(dir, state, 90, remoteID)
 	}
@@ -210,6 +226,8 @@ func scenStateMsg(e *Env, args []string, r *rand.Rand) {
 				// the remote half-closes directly behind what it sent: all of it is still read and acted upon
 				c.fin()
 				c.waitEnd(stepWait)
+			} else if stim == "update-max" && state == "established" {
+				time.Sleep(20 * time.Millisecond)
 			} else if stim != "update" && !(stim == "ka" && state != "openSent") && !(stim == "open" && state == "openSent") {
 				c.waitEnd(stepWait)
 			} else {
@@ -235,6 +253,21 @@ func openVariant(name string, lid uint32) []byte {
 		return ok(4, remoteAS, 90, remoteID, std)
 	case "valid-2params":
 		return ok(4, remoteAS, 90, remoteID, []wire.Param{{Typ: 2, Caps: []wire.Cap{mp}}, {Typ: 2, Caps: []wire.Cap{cap4, {Code: 70, Val: []byte{1, 2, 3}}}}})
+	case "maxsize", "maxsize-1":
+		// the largest message the header allows (4096 octets; and one less): a well-framed but malformed OPEN, which
+		// is an OPEN Message Error, not a header error
+		b := ok(4, remoteAS, 90, remoteID, std)
+		n := 4077
+		if name == "maxsize-1" {
+			n = 4076
+		}
+		for len(b) < n {
+			b = append(b, byte(len(b)))
+		}
+		return b
+	case "valid-cap4-first-of-3":
+		// the 4-octet-AS capability sits in the first of three capability parameters (RFC 5492 allows the split)
+		return ok(4, remoteAS, 90, remoteID, []wire.Param{{Typ: 2, Caps: []wire.Cap{cap4}}, {Typ: 2, Caps: []wire.Cap{mp}}, {Typ: 2, Caps: []wire.Cap{{Code: 70, Val: []byte{9}}}}})
 	case "valid-astrans":
 		return ok(4, 23456, 90, remoteID, std)
 	case "valid-hold0":
@@ -281,7 +314,7 @@ func openVariant(name string, lid uint32) []byte {
 
 var openVariants = []string{"valid", "valid-2params", "valid-astrans", "valid-hold0", "valid-hold3", "version3", "badas", "badas4",
 	"astrans-nocap", "hold1", "hold2", "id-multicast", "nocap4", "cap4-len3", "param-unknown", "noparams", "emptyparam",
-	"optlen-long", "cap-overrun", "short"}
+	"optlen-long", "cap-overrun", "short", "maxsize", "maxsize-1", "valid-cap4-first-of-3"}
 
 // handshake:<dir>:<variant>[:veto][:sameas][:hold=<local hold>]
 func scenHandshake(e *Env, args []string, r *rand.Rand) {
@@ -477,7 +510,7 @@ func init() {
 		var out []string
 		for _, dir := range []string{"out", "in"} {
 			for _, st := range []string{"openSent", "openConfirm", "established"} {
-				for _, s := range []string{"open", "update", "ka", "notif-cease", "notif-other", "notif-hold", "notif-short", "notif-shutdown255", "notif-shutdown-short", "fin", "fin-midheader", "fin-midbody", "rst"} {
+				for _, s := range []string{"open", "update", "ka", "notif-cease", "notif-other", "notif-hold", "notif-short", "notif-shutdown255", "notif-shutdown-short", "notif-max", "update-max", "fin", "fin-midheader", "fin-midbody", "rst"} {
 					out = append(out, fmt.Sprintf("state-msg:%s:%s:%s", dir, st, s))
 				}
 				if dir == "out" {
@@ -485,6 +518,7 @@ func init() {
 					for _, s := range []string{"open", "notif-other", "fin"} {
 						out = append(out, fmt.Sprintf("state-msg:%s:%s:%s:second=1", dir, st, s))
 					}
+					out = append(out, fmt.Sprintf("state-msg:%s:%s:ka:second=1:prelude=cease-trail", dir, st), fmt.Sprintf("state-msg:%s:%s:update:second=1:prelude=cut", dir, st))
 				}
 				// further messages directly behind one that ends (or does not end) the session, in the same write
 				for _, s := range []string{"open", "update", "ka", "notif-cease", "notif-other", "badtype"} {
@@ -513,6 +547,8 @@ func init() {
 			out = append(out, fmt.Sprintf("state-msg:%s:openSent:open:trail=2:slowlog=25", dir), fmt.Sprintf("state-msg:%s:estrace:open:slowlog=25", dir),
 				fmt.Sprintf("state-msg:%s:openSent:ka:slowlog=25", dir))
 		}
+		// a Cease arrives while application writers are blocked by the remote's full window
+		out = append(out, "writers:out:k=3:n=60:end=none:inside=0:big=1:stall=2600:ceaseat=300:ms=100:i=0", "writers:out:k=3:n=60:end=none:inside=0:big=1:stall=2600:ceaseat=500:ms=100:i=1")
 		// the stimulus travels directly behind the KEEPALIVE that establishes the session
 		for _, dir := range []string{"out", "in"} {
 			for _, s := range []string{"open", "update", "ka", "notif-cease", "notif-other", "fin", "rst", "badmarker"} {
@@ -532,6 +568,12 @@ func init() {
 						}
 						out = append(out, fmt.Sprintf("state-msg:%s:%s:%s:seg=%d", dir, st, s, seg))
 					}
+				}
+				// what was left unread of an earlier connection of the same FSM (a cut message, octets behind a Cease) is not
+				// read into the next connection
+				if dir == "out" {
+					out = append(out, fmt.Sprintf("state-msg:out:%s:ka:second=1:prelude=cease-trail", st), fmt.Sprintf("state-msg:out:%s:update:second=1:prelude=cut", st),
+						fmt.Sprintf("state-msg:out:%s:open:second=1:prelude=cut", st))
 				}
 				// the NOTIFICATION corebgp answers with reaches the wire in one piece also while the application writes
 				if dir == "in" && st == "established" {
@@ -584,6 +626,7 @@ func init() {
 		}
 		out = append(out, "updates:out:n=6:pause=1300:k=p0", "updates:in:n=6:pause=1300:k=p1")
 		// negotiated hold time 0 (no hold timer); a handler slower than it is polite to be
+		out = append(out, "writers:in:k=3:n=300:end=veto:inside=0:pause=1:adv=1:ms=120:i=0", "writers:in:k=3:n=300:end=veto:inside=0:pause=1:adv=1:ms=150:i=1")
 		out = append(out, "updates:out:n=12:hold=0:k=h0", "updates:in:n=12:hold=0:end=fin:k=h1", "updates:out:n=5:slow=300000:hold=3:k=h2")
 		return out
 	}
